@@ -1,12 +1,23 @@
 /-
 C10 — model of what the surviving peers do when a peer is declared failed
-(alertsHandler → repinFromPeer), when a peer is removed (PeerRemove → vacatePeer)
+(alertsHandler → repinFromPeer), when a peer is removed (PeerRemove → vacatePeer → RmPeer)
 and of the expiry sweep (StateSync), cluster.go + util.go (distanceChecker).
 
 Hashes (blake2b-256 of the peer id / cid key) are natural numbers (big-endian
 value of the 32 bytes; `bytes.Compare` on equal-length arrays is the numeric
 order). Re-pinning itself is `C04.pinOp` with the failed peer blacklisted and the
 allocation delegated to the C03 relation. Core Lean only.
+
+Three layers:
+* one member handling one event: `onAlert`, `vacate`, `stateSync` — all three are a *sweep* over
+  the list of pins the member read from the state (`cState.List`), running a per-pin call
+  (`repinFromPeer` / `Unpin`) that reads the state again (`PinGet`) and commits at once;
+* a *round*: the event reaching every member. `roundSeq` — the members act one after the other,
+  each against the pinset the previous ones left (any order: the schedule is a parameter);
+  `snapLogs` + `commitAll` — every member acts against the same pre-state and the logged
+  operations are committed afterwards in any order (what lagging replicas of the state amount to);
+  each member has its *own* view of the peerset and of whom it trusts (`Actor.w`);
+* `peerRemove`: vacate, then the membership change, as an ordered trace.
 -/
 import ClusterVerif.Model.C04
 namespace CV.C10
@@ -15,7 +26,7 @@ open CV
 structure World where
   members : List (Nat × Nat)          -- consensus.Peers(): (peer id, hash of the peer id)
   cidHash : List (Nat × Nat)          -- cid ↦ hash of its key
-  untrusted : List Nat                -- peers for which IsTrustedPeer is false (same view at every member)
+  untrusted : List Nat                -- peers for which IsTrustedPeer is false
   deriving Repr
 
 def World.peerHash (w : World) (p : Nat) : Nat := (C04.lookup w.members p).getD 0
@@ -45,35 +56,65 @@ structure Acc where
   log : List C04.LogEntry
   deriving Repr
 
-/-- `repinFromPeer(p, pin)`: allocations cleared, pin() with the failed peer blacklisted -/
+/-- the configuration `Cluster.pin` / `Cluster.Unpin` run under at this peer -/
+def PeerCfg.cfg (pc : PeerCfg) : C04.Cfg := { pc.base with follower := pc.follower }
+
+/-- `repinFromPeer(p, pin)` as a call on the state: allocations cleared, pin() with the failed peer blacklisted -/
+def repinOut (pc : PeerCfg) (failed : Nat) (ch : Chosen) (st : PinMap) (pin : Pin) : C04.Out :=
+  C04.pinOp pc.cfg st { pin with allocs := [] } [failed] (ch pin.cid)
+
+/-- `c.Unpin(p.Cid)` as a call on the state -/
+def unpinOut (pc : PeerCfg) (st : PinMap) (pin : Pin) : C04.Out := C04.unpinOp pc.cfg st pin.cid
+
+/-- one iteration of a loop `for _, pin := range list { if cond(pin) { call(pin) } }` -/
+def sweep (cond : Pin → Bool) (run : PinMap → Pin → C04.Out) (acc : Acc) (pin : Pin) : Acc :=
+  if cond pin then { st := (run acc.st pin).post, log := acc.log ++ (run acc.st pin).log } else acc
+
+/-- the whole loop over the list read at the start, the state evolving with every call -/
+def sweepAll (cond : Pin → Bool) (run : PinMap → Pin → C04.Out) (pre : PinMap) : Acc :=
+  pre.foldl (sweep cond run) { st := pre, log := [] }
+
 def repin (pc : PeerCfg) (failed : Nat) (ch : Chosen) (acc : Acc) (pin : Pin) : Acc :=
-  let out := C04.pinOp { pc.base with follower := pc.follower } acc.st { pin with allocs := [] } [failed] (ch pin.cid)
-  { st := out.post, log := acc.log ++ out.log }
+  { st := (repinOut pc failed ch acc.st pin).post, log := acc.log ++ (repinOut pc failed ch acc.st pin).log }
+
+/-- the test in the loop of `alertsHandler` -/
+def alertCond (w : World) (pc : PeerCfg) (failed : Nat) (pin : Pin) : Bool :=
+  pin.allocs.contains failed && isClosest w pc.self (some failed) pin.cid
 
 /-- one delivery of a ping alert for `failed` to the peer `pc` -/
 def onAlert (w : World) (pc : PeerCfg) (failed : Nat) (ch : Chosen) (pre : PinMap) : Acc :=
   if pc.follower || pc.disableRepin then { st := pre, log := [] } else
-  pre.foldl (fun acc pin =>
-    if pin.allocs.contains failed && isClosest w pc.self (some failed) pin.cid then repin pc failed ch acc pin else acc)
-    { st := pre, log := [] }
+  sweepAll (alertCond w pc failed) (repinOut pc failed ch) pre
 
 /-- `vacatePeer(p)` (PeerRemove): every pin allocated to `p`, no closest test -/
 def vacate (pc : PeerCfg) (failed : Nat) (ch : Chosen) (pre : PinMap) : Acc :=
   if pc.disableRepin then { st := pre, log := [] } else
-  pre.foldl (fun acc pin => if pin.allocs.contains failed then repin pc failed ch acc pin else acc)
-    { st := pre, log := [] }
+  sweepAll (fun pin => pin.allocs.contains failed) (repinOut pc failed ch) pre
 
-/-- `Pin.ExpiredAt(now)` -/
+/-- `Pin.ExpiredAt(now)`: `!ExpireAt.IsZero() && ExpireAt.Before(now)` with abstract instants -/
 def expired (p : Pin) : Bool := p.opts.expire == .past
+
+/-- `ExpireAt` on a concrete clock (unix nanoseconds): Go's zero `time.Time`, or an instant -/
+inductive Stamp where
+  | zero
+  | at (t : Int)
+  deriving DecidableEq, Repr
+
+/-- `Pin.ExpiredAt(now)` on the concrete clock: never for the zero time or the unix epoch, else strictly before -/
+def expiredAt (now : Int) : Stamp → Bool
+  | .zero => false
+  | .at t => t != 0 && decide (t < now)
+
+/-- the abstract instant the shared pin model uses for a stamp, as seen at `now` -/
+def Stamp.abs (now : Int) : Stamp → Expiry
+  | .zero => .zero
+  | .at t => if t == 0 then .unixZero else if t < now then .past else .future (t - now).toNat
+
+def syncCond (w : World) (pc : PeerCfg) (pin : Pin) : Bool := expired pin && isClosest w pc.self none pin.cid
 
 /-- `StateSync`: unpin expired pins this peer is closest to -/
 def stateSync (w : World) (pc : PeerCfg) (pre : PinMap) : Acc :=
-  if pc.follower then { st := pre, log := [] } else
-  pre.foldl (fun acc pin =>
-    if expired pin && isClosest w pc.self none pin.cid then
-      let out := C04.unpinOp { pc.base with follower := pc.follower } acc.st pin.cid
-      { st := out.post, log := acc.log ++ out.log }
-    else acc) { st := pre, log := [] }
+  if pc.follower then { st := pre, log := [] } else sweepAll (syncCond w pc) (unpinOut pc) pre
 
 /-! ### The alert handler as a loop
 
@@ -92,5 +133,83 @@ def handleEv (pc : PeerCfg) (st : PinMap) : AlertEv → PinMap
   | .skipped => st
 
 def handleAlerts (pc : PeerCfg) (st : PinMap) (evs : List AlertEv) : PinMap := evs.foldl (handleEv pc) st
+
+/-! ### Rounds: the event reaches every member -/
+
+abbrev Logs := List (Nat × List C04.LogEntry)    -- per acting member, in acting order
+
+/-- a member taking part in a round: its own view of the peerset / trust, its configuration, and
+    the allocations its allocator picked -/
+structure Actor where
+  w : World
+  pc : PeerCfg
+  ch : Chosen
+
+def entryCid : C04.LogEntry → Nat
+  | .logPin p => p.cid
+  | .logUnpin c => c
+
+/-- a committed operation applied to the shared pinset (what the Raft FSM / the CRDT hooks do) -/
+def commit (st : PinMap) : C04.LogEntry → PinMap
+  | .logPin p => PinMap.put p.stored st
+  | .logUnpin c => st.erase c
+
+def commitAll (st : PinMap) (es : List C04.LogEntry) : PinMap := es.foldl commit st
+
+/-- the operations a log holds for one cid -/
+def forCid (c : Nat) (es : List C04.LogEntry) : List C04.LogEntry := es.filter (fun e => entryCid e == c)
+
+/-- a round, generic in what a member does with the pinset it finds -/
+def roundWith (act : Actor → PinMap → Acc) (sched : List Actor) (pre : PinMap) : PinMap × Logs :=
+  sched.foldl (fun acc a => ((act a acc.1).st, acc.2 ++ [(a.pc.self, (act a acc.1).log)])) (pre, [])
+
+/-- serial discipline: the members handle the alert in schedule order, each against the pinset
+    left by the previous ones -/
+def roundSeq (failed : Nat) (sched : List Actor) (pre : PinMap) : PinMap × Logs :=
+  roundWith (fun a st => onAlert a.w a.pc failed a.ch st) sched pre
+
+/-- snapshot discipline: every member handles the alert against the same pre-state … -/
+def snapLogsWith (act : Actor → PinMap → Acc) (sched : List Actor) (pre : PinMap) : Logs :=
+  sched.map (fun a => (a.pc.self, (act a pre).log))
+def snapLogs (failed : Nat) (sched : List Actor) (pre : PinMap) : Logs :=
+  snapLogsWith (fun a st => onAlert a.w a.pc failed a.ch st) sched pre
+
+/-- … and the logged operations reach the shared pinset afterwards, in the order `order`
+    (any permutation of what was logged). -/
+def allEntries (logs : Logs) : List C04.LogEntry := logs.flatMap (·.2)
+
+/-- the expiry sweep reaching every member, serial discipline -/
+def roundSync (sched : List Actor) (pre : PinMap) : PinMap × Logs :=
+  roundWith (fun a st => stateSync a.w a.pc st) sched pre
+def snapLogsSync (sched : List Actor) (pre : PinMap) : Logs :=
+  snapLogsWith (fun a st => stateSync a.w a.pc st) sched pre
+
+/-- (member, operation) pairs a round holds for one cid -/
+def roundFor (c : Nat) (logs : Logs) : List (Nat × C04.LogEntry) :=
+  logs.flatMap (fun l => (forCid c l.2).map (fun e => (l.1, e)))
+
+/-! ### PeerRemove: vacate, then the membership change
+
+`PeerRemove` runs at the one member that received the call. `vacatePeer` returns nothing: a re-pin
+that fails (allocation impossible, pin expired, follower) is logged and skipped, the loop goes on,
+and `consensus.RmPeer` is attempted in every case; only its error is returned to the caller. -/
+
+inductive RmEv where
+  | op (e : C04.LogEntry)             -- a LogPin committed while vacating
+  | rmPeer (p : Nat) (ok : Bool)      -- consensus.RmPeer(p) and whether it succeeded
+  deriving DecidableEq, Repr
+
+structure RemoveOut where
+  st : PinMap
+  log : List C04.LogEntry
+  trace : List RmEv
+  members : List Nat                  -- the peerset afterwards
+  err : Bool                          -- what PeerRemove returns
+  deriving Repr
+
+def peerRemove (pc : PeerCfg) (failed : Nat) (ch : Chosen) (rmOk : Bool) (members : List Nat) (pre : PinMap) : RemoveOut :=
+  let v := vacate pc failed ch pre
+  { st := v.st, log := v.log, trace := v.log.map .op ++ [.rmPeer failed rmOk],
+    members := if rmOk then members.filter (· != failed) else members, err := !rmOk }
 
 end CV.C10
